@@ -746,9 +746,8 @@ def printf (s : St) (v : Nat) (f : List Fmt) : Option (St × Nat) := do
     let s ← writeOwn s v m out.length
     pure (s, out.length)
   else do
-    -- the first vsnprintf stored capacity-1 chars and a NUL
-    let m ← wr m 0 ((out.take (d.cap - 1)).map some ++ (if d.cap = 0 then [] else [some 0]))
-    let s ← writeOwn s v m d.len
+    -- (the capacity-1 chars and the NUL the first vsnprintf stored are all overwritten by the
+    --  second one, which stores more; that intermediate store is not modelled)
     let s ← detach s v 0 out.length
     let d ← desc s v
     let m ← memOf s d.base
